@@ -20,6 +20,7 @@ def build_spec():
     from . import c_schedules, c_preempt
     c_schedules.declare_node_side(spec)
     c_schedules.declare_shift_end(spec)
+    c_schedules.declare_interrupt(spec)
     c_preempt.declare_class_change_event(spec)
     return spec
 
